@@ -2,6 +2,7 @@ import GeosModel.Proofs.Norm.Area
 import GeosModel.Proofs.Norm.Length
 import GeosModel.Proofs.Construct.Check
 import GeosModel.Proofs.Construct.InteriorPoint
+import GeosModel.Proofs.Construct.ScanParity
 import GeosModel.Model.Norm.Orientation
 /-!
 # C20 — constructions satisfy their defining conditions; normal form is canonical
@@ -33,8 +34,10 @@ Part 3 (scan line of the point on surface).  `InteriorPointArea` *is* modelled (
 `ScanLineYOrdinateFinder`, the crossing rule, the sorted crossing pairs and the widest section, over exact rationals) and
 tied by the stream `pos` (on grid inputs the returned ordinate must be the modelled scan ordinate exactly and the abscissa
 the midpoint of a widest modelled section).  Proved: the scan line passes through no vertex of any ring, hence lies on no
-horizontal edge, and every counted crossing is a strict straddle.  That the midpoint of a section is then interior (the
-even–odd argument, which needs the validity of the polygon) is not proved; it is checked case by case by `posCheck`.
+horizontal edge, and every counted crossing is a strict straddle; the scan's crossing rule is the ray rule of
+`Kernel.locateInRing`; a grid point strictly inside a section of the sorted crossing list is on no ring and inside an odd
+number of rings (even–odd argument), hence interior given the two pointwise consequences of validity (holes inside the
+shell, holes apart).  That validity implies those two facts is not proved; `posCheck` checks the answer case by case.
 -/
 namespace GeosModel.C20
 open GeosModel GeosModel.Norm GeosModel.Construct GeosModel.Kernel
@@ -304,7 +307,7 @@ theorem scan_line_not_on_horizontal_edge {shell : List Pt} {holes : List (List P
   · rfl
   · split
     · rfl
-    · first | rfl | simp [hh]
+    · rfl
 
 /-- … and an edge contributes a crossing exactly when it strictly straddles the line: the vertex-on-the-line rules of
 `isEdgeCrossingCounted` are never used -/
@@ -316,6 +319,54 @@ theorem scan_line_crossings_strict {shell : List Pt} {holes : List (List Pt)} {y
   have hm := mem_of_mem_edges he
   exact edgeCrossing_isSome_iff (scan_line_avoids_vertices ha hb hab h ring hr e.1 hm.1)
     (scan_line_avoids_vertices ha hb hab h ring hr e.2 hm.2)
+
+
+/-- **the scan's crossing rule is the ray's**: for an edge with no end point on the line through `p`, `Kernel.crosses`
+(the rule `locateInRing` counts with) holds exactly when `addEdgeCrossing` records an abscissa strictly right of `p` -/
+theorem scan_crossing_is_ray_crossing {p a b : Pt} (ha : a.y ≠ p.y) (hb : b.y ≠ p.y) :
+    crosses p a b = (match edgeCrossing (2 * p.y) a b with | none => false | some x => rightOf p x) :=
+  crosses_eq_scan ha hb
+
+/-- **even–odd**: let the scan line `y = p.y` pass through no vertex of the closed rings (which
+`scan_line_avoids_vertices` guarantees for the modelled finder).  A grid point `p` strictly inside one of the sections
+`(c₂ᵢ, c₂ᵢ₊₁)` of the sorted crossing list lies on no ring and inside an odd number of rings -/
+theorem section_point_inside_odd_number_of_rings {p : Pt} {rings : List (List Pt)} {s : Q × Q}
+    (hoff : ∀ ring ∈ rings, ∀ v ∈ ring, v.y ≠ p.y)
+    (hcl : ∀ ring ∈ rings, ring = [] ∨ isClosedRing ring = true)
+    (hs : s ∈ sections (2 * p.y) rings) (h1 : leftOf p s.1 = true) (h2 : rightOf p s.2 = true) :
+    (∀ ring ∈ rings, locateInRing p ring ≠ .boundary) ∧
+    (rings.filter (fun r => locateInRing p r == .interior)).length % 2 = 1 :=
+  section_point_parity hoff hcl hs h1 h2
+
+/-- **the point on surface is interior**: with the modelled scan ordinate (`2·p.y = scanY2`), a non-flat shell and
+closed rings, a grid point strictly inside a section of the scan line is in the interior of the polygon
+(`Kernel.locateInPolygon`, what `posCheck` decides), provided — as validity implies — that a hole containing it lies in
+the shell and no two holes contain it -/
+theorem section_point_is_interior {p a b : Pt} {shell : List Pt} {holes : List (List Pt)} {s : Q × Q}
+    (ha : a ∈ shell) (hb : b ∈ shell) (hab : a.y < b.y) (hy : scanY2 (shell :: holes) = some (2 * p.y))
+    (hcl : ∀ ring ∈ shell :: holes, ring = [] ∨ isClosedRing ring = true)
+    (hs : s ∈ sections (2 * p.y) (shell :: holes)) (h1 : leftOf p s.1 = true) (h2 : rightOf p s.2 = true)
+    (nest : ∀ h ∈ holes, locateInRing p h = .interior → locateInRing p shell = .interior)
+    (apart : (holes.filter (fun h => locateInRing p h == .interior)).length ≤ 1) :
+    posCheck (shell :: holes) p = true := by
+  rw [point_on_surface_check]
+  refine section_point_interior ?_ hcl hs h1 h2 nest apart
+  intro ring hr v hv hvy
+  exact scan_line_avoids_vertices ha hb hab hy ring hr v hv (by rw [hvy])
+
+/-- … in particular the **midpoint of a section of positive width**, which is what `InteriorPointPolygon` returns,
+whenever it is a grid point (`2·p.x·d₁·d₂ = n₁·d₂ + n₂·d₁` for the section `(n₁/d₁, n₂/d₂)`) -/
+theorem section_midpoint_is_interior {p a b : Pt} {shell : List Pt} {holes : List (List Pt)} {s : Q × Q}
+    (ha : a ∈ shell) (hb : b ∈ shell) (hab : a.y < b.y) (hy : scanY2 (shell :: holes) = some (2 * p.y))
+    (hcl : ∀ ring ∈ shell :: holes, ring = [] ∨ isClosedRing ring = true)
+    (hs : s ∈ sections (2 * p.y) (shell :: holes)) (hw : s.1.lt s.2 = true)
+    (hm : 2 * p.x * ((s.1.den : Int) * s.2.den) = s.1.num * s.2.den + s.2.num * s.1.den)
+    (nest : ∀ h ∈ holes, locateInRing p h = .interior → locateInRing p shell = .interior)
+    (apart : (holes.filter (fun h => locateInRing p h == .interior)).length ≤ 1) :
+    posCheck (shell :: holes) p = true := by
+  obtain ⟨d1, d2⟩ := sections_pos hs
+  obtain ⟨h1, h2⟩ := midpoint_strictly_inside d1 d2 hw hm
+  exact section_point_is_interior ha hb hab hy hcl hs h1 h2 nest apart
 
 /-- `findBestMidpoint`: the reported section (if any) is one of the sections and its width is the reported width -/
 theorem widest_section_is_a_section (secs : List (Q × Q)) :
@@ -379,5 +430,13 @@ example : (sections 13 lHole).map (fun s => (s.1.num, s.1.den, s.2.num, s.2.den)
 example : posCheck (lHole.map fun r => r.map fun p => ⟨2 * p.x, 2 * p.y⟩) ⟨16, 13⟩ = true := by decide
 /-- on the line y = 5 (what a finder that ignores the hole's inner ordinates would choose) the point (8, 5) is on the hole -/
 example : posCheck lHole ⟨8, 5⟩ = false := by decide
+
+/-- the doubled L-hole polygon: the scan line is y = 13, the sections [0, 6] and [12, 20]; (16, 13) is strictly inside
+the second one and all hypotheses of `section_point_is_interior` hold -/
+def lHole2 : List (List Pt) := lHole.map fun r => r.map fun p => ⟨2 * p.x, 2 * p.y⟩
+example : scanY2 lHole2 = some (2 * 13) := by decide
+example : (sections 26 lHole2).map (fun s => (s.1.num, s.1.den, s.2.num, s.2.den)) = [(0, 1, 6, 1), (12, 1, 20, 1)] := by decide
+example : ∃ s ∈ sections 26 lHole2, leftOf ⟨16, 13⟩ s.1 = true ∧ rightOf ⟨16, 13⟩ s.2 = true := by decide
+example : ∀ ring ∈ lHole2, ring = [] ∨ isClosedRing ring = true := by decide
 
 end GeosModel.C20
